@@ -16,7 +16,7 @@ import (
 // Every call of Transport.Send outside the transport package must therefore lie in the
 // flattened view of a retried operation.
 func checkSendSites(c *Ctx, r *Report) {
-	r.Rule("send-sites", "every call of Transport.Send in the library is made by an operation handed to backoff.Retry (no transmission bypasses sequence numbering, reply acceptance, retry classification and accounting)", 3)
+	r.Rule("send-sites", "every call of Transport.Send in the library is made by an operation handed to backoff.Retry (no transmission bypasses sequence numbering, reply acceptance, retry classification and accounting)", 1)
 	inClosure := map[ssa.Instruction]bool{}
 	for _, rs := range c.RetrySites() {
 		if rs.Op == nil {
@@ -59,7 +59,7 @@ func (c *Ctx) isExchangeCall(in ssa.Instruction) bool {
 		return true
 	}
 	if sf := cc.StaticCallee(); sf != nil {
-		return c.InModule(sf) && sf.Blocks != nil && c.reachesSend(sf)
+		return c.InModule(sf) && sf.Blocks != nil && (c.reachesSend(sf) || c.reachesRetry(sf))
 	}
 	if cc.IsInvoke() {
 		pk := cc.Method.Pkg()
@@ -156,4 +156,30 @@ func checkSuccessNeedsExchange(c *Ctx, r *Report) {
 		}
 		r.Check(ok, name+"|success needs exchange", pos, fmt.Sprintf("%d success paths, each with an exchange", n), "a path returns success without any exchange with the BMC: nothing was sent, no response was received, and the caller is told the operation succeeded")
 	}
+}
+
+// reachesRetry: fn (or a module function it calls statically) calls backoff.Retry — with an
+// operation it was handed, which by send-sites is one of the library's sending operations.
+func (c *Ctx) reachesRetry(fn *ssa.Function) bool {
+	seen := map[*ssa.Function]bool{}
+	var walk func(f *ssa.Function) bool
+	walk = func(f *ssa.Function) bool {
+		if f == nil || seen[f] || f.Blocks == nil {
+			return false
+		}
+		seen[f] = true
+		found := false
+		rawInstrs(f, false, func(in ssa.Instruction) {
+			if isCallTo(in, fnBackoffRetry) || isCallTo(in, "github.com/cenkalti/backoff/v4.RetryNotify") {
+				found = true
+			}
+			if cc := asCall(in); cc != nil && !found {
+				if sf := cc.StaticCallee(); sf != nil && c.InModule(sf) && walk(sf) {
+					found = true
+				}
+			}
+		})
+		return found
+	}
+	return walk(fn)
 }
